@@ -107,6 +107,8 @@ func mgExpr(e ast.Expr) string {
 		return "(EUn " + mgCoqString(v.Op.String()) + " " + mgExpr(v.X) + ")"
 	case *ast.StarExpr:
 		return "(EUn " + mgCoqString("*") + " " + mgExpr(v.X) + ")"
+	case *ast.ArrayType, *ast.MapType: // a type in expression position: make([]byte, 0, 5)
+		return "(EId " + mgCoqString(typeText(v)) + ")"
 	}
 	return "(EOther " + mgCoqString(fmt.Sprintf("%T", e)) + ")"
 }
